@@ -34,7 +34,7 @@ func (c *c19) NumCases(tier string) int {
 	if tier == "thorough" {
 		return 12000
 	}
-	return 480
+	return 1920
 }
 func (c *c19) Rule() string {
 	return "one case = one streaming call (Datastore.Subscribe with 1-4 subscriptions and 1-4 ms sample intervals, Server.GetData in all four encodings, Server.WatchDeviations) on a datastore holding 0-120 running leaves, with a scripted client: cancel at send index k, Send error from index k on (all concurrent senders fail), stalled consumer (Send blocks until cancel), slow consumer, cancel between ticks, data exhausted, or the cache instance of the datastore deleted while the stream is served; the handler must return and the census of goroutines with a data-server frame (runtime.Stack) must be back at its baseline within 10 s; a worker death with a Go panic is a violation. distinct = (rpc, subscriptions/encoding, store size, script); non-trivial = the terminating event happened after at least one message was sent or while several senders were active"
@@ -112,8 +112,15 @@ func (c *c19) RunCase(w *core.Worker, idx int, seed uint64, res *core.CaseResult
 	size := sizes[rng.Intn(len(sizes))]
 	c.fill(ds, size)
 	kinds := []string{"cancel-at", "fail-at", "stall-at", "slow", "cancel-later", "exhaust", "store-deleted"}
-	sc := script{kind: kinds[rng.Intn(len(kinds))], k: 1 + rng.Intn(2*size+3)}
 	rpc := []string{"subscribe", "getdata", "watchdeviations"}[idx%3]
+	kmax := 2*size + 3
+	if rpc == "subscribe" {
+		// several senders share the stream: a Send that fails (or a client that goes away) while the other subscriptions
+		// are in the middle of a sample, also in a later round
+		kinds = append(kinds, "fail-at", "fail-at", "cancel-at")
+		kmax = 5*size + 6
+	}
+	sc := script{kind: kinds[rng.Intn(len(kinds))], k: 1 + rng.Intn(kmax)}
 	// quiesce, then baseline
 	time.Sleep(2 * time.Millisecond)
 	base, _ := fixture.Census(c19Frames...)
